@@ -191,6 +191,12 @@ Theorem json_encode_denotes : forall ib assoc v, JsonSpec.spec_ok v = true ->
 Proof. exact json_encode_denotes_l. Qed.
 Print Assumptions json_encode_denotes.
 
+(* the UTF-8 test both use (the table of utf8.ValidString) accepts exactly the concatenations of
+   RFC 3629 encodings of Unicode scalar values *)
+Theorem utf8_valid_iff_text : forall s, utf8_valid s = true <-> utf8_text s.
+Proof. exact utf8_valid_iff_text_l. Qed.
+Print Assumptions utf8_valid_iff_text.
+
 (* ... and json_encode answers false exactly on the values that have no JSON encoding *)
 Theorem json_encode_refuses : forall ib v, json_encode ib v = None <-> encodable v = false.
 Proof. exact json_encode_refuses_l. Qed.
